@@ -211,14 +211,16 @@ def Step : Op V → AMap V → AMap V → Ret V → Prop
 /-- a new key goes to the end; an existing key keeps its place -/
 def ordInsert (ks : List Bytes) (k : Bytes) : List Bytes := if ks.contains k then ks else ks ++ [k]
 
+/-- what is left of `x :: r` when `x` is `swap_remove`d: the last element takes the place of `x` -/
+def swapTail {α : Type} (r : List α) : List α :=
+  match r.getLast? with
+  | some l => l :: r.dropLast
+  | none => []
+
 /-- `Vec::swap_remove`: the last key moves into the position of the removed key -/
 def ordSwapRemove : List Bytes → Bytes → List Bytes
   | [], _ => []
-  | a :: r, k =>
-    if a = k then (match r.getLast? with
-      | some l => l :: r.dropLast
-      | none => [])
-    else a :: ordSwapRemove r k
+  | a :: r, k => if a = k then swapTail r else a :: ordSwapRemove r k
 
 /-- `Vec::remove`: the following keys move up by one -/
 def ordShiftRemove (ks : List Bytes) (k : Bytes) : List Bytes := ks.filter (· != k)
